@@ -110,9 +110,18 @@ def _replay_default_aggregation():
 def _replay_cascade_data():
     """get_cascade_data: every stage equals the sum of the databook entries of its constituents (over the populations)"""
     import numpy as np
-    at, P = _udt()
+    at, _ = _udt()
     from atomica.cascade import get_cascade_data, sanitize_cascade
 
+    bad = []
+    for project in ("udt", "tb"):                # one population; several populations (the aggregate is a sum over them)
+        bad += _cascade_data_one(at, np, project, get_cascade_data, sanitize_cascade)
+    pre = dict(projects=["udt", "tb"], cascade="two ad hoc stages sharing their first constituent, all populations")
+    return dict(verdict="violates" if bad else "holds", detail="; ".join(bad[:3]) or "every stage equals the sum of its constituents' data", prestate=pre)
+
+
+def _cascade_data_one(at, np, project, get_cascade_data, sanitize_cascade):
+    P = at.demo(project, do_run=False)
     fw, data = P.framework, P.data
     pop0 = list(data.pops.keys())[0]
     have = [k for k in data.tdve.keys() if (k in fw.comps.index or k in fw.characs.index) and data.get_ts(k, pop0) is not None and data.get_ts(k, pop0).has_time_data][:3]
@@ -139,9 +148,8 @@ def _replay_cascade_data():
         ok = np.allclose(got, want, rtol=1e-9, atol=1e-9, equal_nan=True)
         if not ok:
             k = int(np.nanargmax(np.abs(np.nan_to_num(got) - np.nan_to_num(want))))
-            bad.append("stage %r at t=%s: reported %r, sum of its constituents' data %r" % (stage, t[k], float(got[k]), float(want[k])))
-    pre = dict(project="udt", cascade=cascade)
-    return dict(verdict="violates" if bad else "holds", detail="; ".join(bad[:3]) or "every stage equals the sum of its constituents' data", prestate=pre)
+            bad.append("%s: stage %r at t=%s: reported %r, sum of its constituents' data over %d populations %r" % (project, stage, t[k], float(got[k]), len(pops), float(want[k])))
+    return bad
 
 
 def _replay_load_calibration():
